@@ -796,10 +796,8 @@ def _this_rooted(f, nid, depth=0):
     return False
 
 
-def rule_listener_moves_out(prog, run):
-    rid = run.rule('C02.R11', 'an object stored by value in the stream-listener variant completes a promise only after moving it out of itself when a continuation attached to its task '
-                              'replaces the listener (the continuation destroys the object while finish() is still running on its member: use after free on an ordinary server answer)', floor=3)
-    # the variant member and its alternatives
+def listener_model(prog):
+    """the stream-listener variant of the outgoing client: (field, by-value alternatives, by-pointer alternatives, replaces_listener(fn))"""
     cands = []
     for r in prog.records.values():
         for fl in r.get('fields', []):
@@ -808,12 +806,10 @@ def rule_listener_moves_out(prog, run):
                 alts = [_qualify(prog, a.strip()) for a in _split_targs(t)]
                 vals = [a for a in alts if not a.endswith('*') and prog.fns_named(a + '::handleElement')]
                 if len(vals) >= 2:
-                    cands.append((fl.get('qname') or r['qname'] + '::' + fl['name'], vals, [a.rstrip(' *') for a in alts if a.endswith('*')]))
+                    cands.append((fl.get('qname') or r['qname'] + '::' + fl['name'], vals, [a.rstrip(' *') for a in alts if a.endswith('*')], r))
     if len(cands) != 1:
-        raise AnalysisBroken('C02.R11: the stream-listener variant was not identified (%d candidates)' % len(cands))
-    field, vals, ptrs = cands[0]
-    run.extra['listener_variant'] = {'field': field, 'by_value': vals, 'by_pointer': ptrs}
-    # functions that replace the listener, transitively
+        raise AnalysisBroken('the stream-listener variant was not identified (%d candidates)' % len(cands))
+    field, vals, ptrs, rec = cands[0]
     replaces = {}
 
     def replaces_listener(g, depth=0):
@@ -836,8 +832,12 @@ def rule_listener_moves_out(prog, run):
                             r = True
         replaces[g.id] = r
         return r
-    # continuations attached to a listener's task
-    dangerous = {}
+    return field, vals, ptrs, replaces_listener, rec
+
+
+def listener_continuations(prog, vals):
+    """continuations attached (QXmppTask::then) to a task handed out by one of the listener classes: [(listener class, fn, call id, [lambda Fn])]"""
+    out = []
     for f in prog.fns.values():
         if '/src/client/' not in f.file or f.entry is None:
             continue
@@ -868,10 +868,21 @@ def rule_listener_moves_out(prog, run):
                 continue
             lams = [l for a in n.get('args', []) for l in prog.lambda_fns(f, f.nodes[f.skip(a)])] or \
                    [l for a in n.get('args', []) for y in f.walk(a) for l in prog.lambda_fns(f, f.nodes[y])]
-            for v in owners:
-                for l in lams:
-                    if replaces_listener(l):
-                        dangerous.setdefault(v, (f, i))
+            for v in sorted(owners):
+                out.append((v, f, i, lams))
+    return out
+
+
+def rule_listener_moves_out(prog, run):
+    rid = run.rule('C02.R11', 'an object stored by value in the stream-listener variant completes a promise only after moving it out of itself when a continuation attached to its task '
+                              'replaces the listener (the continuation destroys the object while finish() is still running on its member: use after free on an ordinary server answer)', floor=3)
+    field, vals, ptrs, replaces_listener, _rec = listener_model(prog)
+    run.extra['listener_variant'] = {'field': field, 'by_value': vals, 'by_pointer': ptrs}
+    dangerous = {}
+    for v, f, i, lams in listener_continuations(prog, vals):
+        for l in lams:
+            if replaces_listener(l):
+                dangerous.setdefault(v, (f, i))
     nfin = 0
     for v in vals:
         for g in prog.fns.values():
